@@ -102,8 +102,8 @@ def run(chk):
     ok2, bad_img = evo_corr.run_image_corr(chk, rng, 4000 if thorough else 800, dims=(2, 3, 4, 5))
     chk.obligation('correspondence: implementation cells = model cells on exhaustive small grids', ok1 and not bad_cells, 'first: %r' % bad_cells[:3])
     chk.obligation('correspondence: GetImage = model image (random N, m, boxes, edge x)', ok2 and not bad_img, 'first: %r' % bad_img[:3])
-    chk.assumptions += ['N in 2..5; theorems at cell level over Z; the real-number form ||dy|| <= 2 sqrt(N+3) |dx|^(1/N) side follows from '
-                        'C08_holder_cells_close by choosing k with 2^(-N(k+1)) <= |dx| < 2^(-N k) (that last arithmetic step is checked numerically, not proved)']
+    chk.assumptions += ['N in 2..5; cell-level theorems over Z; the inequality itself (C08_holder_inequality) over R for rational points x, x\' of [0,1] and any box with sides <= S; '
+                        'binary64 rounding of the affine box map is not part of the theorem (tied by the correspondence)']
     # direct oracles: adjacency + nesting exhaustively on the implementation, inequality on pairs
     found = 0
     for (n, m) in grids:
